@@ -136,7 +136,10 @@ class Session(ApplicationSession):
 
     def onLeave(self, details):
         self.rec.cb("onLeave")
-        return ApplicationSession.onLeave(self, details)
+        r = ApplicationSession.onLeave(self, details)
+        if self.rec.user.get("leave") == "raise":
+            raise RuntimeError("onLeave boom")          # (the user's callback fails after the default clean-up has run)
+        return r
 
     def onDisconnect(self):
         self.rec.cb("onDisconnect")
@@ -144,13 +147,16 @@ class Session(ApplicationSession):
 
     def onUserError(self, fail, msg):
         self.rec.user_errors.append(msg)
+        if self.rec.user.get("usererr") == "raise" and getattr(self.rec, "in_inv", False):
+            raise RuntimeError("onUserError boom")      # (an error reporter that fails itself must not cost anybody a reply)
 
 
 class Recorder:
     def __init__(self, rng, profile):
         self.rng, self.profile = rng, profile
         self.trace = []
-        self.user = {"welcome": "ok", "challenge": "ok"}
+        self.user = {"welcome": "ok", "challenge": "ok", "leave": ("raise" if profile == "c06" and rng.random() < 0.25 else "ok"),
+                     "usererr": ("raise" if profile == "c10" and rng.random() < 0.3 else "ok")}
         self.user_errors = []
         self.new_re()
         self.sess = Session(self)
@@ -298,6 +304,7 @@ class Recorder:
         fw.settle()
         ev["re"] = self.re
         ev["synclost"] = bool(self.synclost_now)
+        ev["lraise"] = self.user.get("leave") == "raise"
         self.synclost_now = False
         ev["obs"] = self.obs()
         ev.update(self.flags)
@@ -416,9 +423,12 @@ class Recorder:
         exp = self.inv_expect
         req = exp["req"]
         self.re["ecalls"].append([exp["reg"], req])
-        if list(a) != exp["args"] or dict(kw) != exp["kwargs"]:
+        # (a caller's keyword argument that happens to be called like the details argument cannot reach the endpoint under that
+        # name: the requested call details are what the endpoint gets there)
+        want_kw = {k: v for k, v in exp["kwargs"].items() if k != "details"}
+        if list(a) != exp["args"] or dict(kw) != want_kw:
             self.bad("argsOk", "endpoint got %r %r, invocation carried %r %r" % (a, kw, exp["args"], exp["kwargs"]))
-        if details is None or details.caller != exp["caller"] or (details.progress is not None) != exp["rp"]:
+        if not isinstance(details, types.CallDetails) or details.caller != exp["caller"] or (details.progress is not None) != exp["rp"]:
             self.bad("argsOk", "endpoint details %r (rp=%r)" % (details, exp["rp"]))
         # the procedure actually called (named by the router for pattern-based registrations), else the registered one
         if details is not None and details.procedure != (exp.get("procedure") or "com.myapp.proc9"):
@@ -540,6 +550,7 @@ def scenario(rng, profile):
 
     def rx(msg, m, beh="value"):
         R.beh = beh
+        R.in_inv = m.get("t") in ("invocation", "interrupt")
         try:
             # as on a wire: what the router sends is serialised and parsed again before the session sees it
             wire = WIRES[R.nrx % len(WIRES)]
@@ -553,6 +564,7 @@ def scenario(rng, profile):
         except Exception as e:  # noqa
             R.re["exc"] = type(e).__name__
         R.step(dict(ev="rx", m=m, u=dict(R.user), beh=beh))
+        R.in_inv = False
 
     def api(name, fn, **kw):
         if name in ("call", "publish", "leave"):
@@ -846,6 +858,9 @@ def scenario(rng, profile):
             beh = rng.choice(["value", "callresult", "none", "unserializable", "oversize", "apperror", "bigerror", "mapped", "unmapped", "pending", "pending"])
             caller = rng.choice([None, 4711])
             iproc = rng.choice([None, None, "com.myapp.proc9.sub.x"])
+            if rng.random() < 0.12:
+                kwargs = dict(kwargs, details={"caller_authrole": "admin"})      # a keyword argument named like the details argument
+                mkwargs = dict(mkwargs or {}, details={"caller_authrole": "admin"})
             R.inv_expect = dict(req=rq, reg=reg, args=args, kwargs=kwargs, rp=rp, caller=caller, procedure=iproc)
             if rq not in s._invocations:
                 R.inv_rp[rq] = rp
@@ -873,6 +888,13 @@ def scenario(rng, profile):
             rx(message.Challenge("wampcra", {"challenge": "x"}), dict(t="challenge"))
 
     def rnd_endpoint():
+        R.in_inv = True
+        try:
+            _rnd_endpoint()
+        finally:
+            R.in_inv = False
+
+    def _rnd_endpoint():
         if not R.pending_endpoints:
             return
         rq = rng.choice(sorted(R.pending_endpoints))
